@@ -995,7 +995,9 @@ class UTPM(Ring, RawAlgorithmsMixIn):
     @classmethod
     def real(cls, x):
         """ UTPM equivalent to numpy.real """
-        return cls(x.data.real)
+        # a view object of its own also for real data (where ndarray.real is
+        # the array itself): the tracer recognizes aliases by the owndata flag
+        return cls(x.data.real[...])
 
     @classmethod
     def pb_real(cls, ybar, x, y, out=None):
